@@ -27,6 +27,8 @@ const (
 	big2p31      = "2147483648"
 	bigInt64Max1 = "9223372036854775806" // 2^63-2
 	bigInt64Max  = "9223372036854775807" // 2^63-1
+	big2p63      = "9223372036854775808"  // 2^63: fits uint64, not int64
+	bigUint64Max = "18446744073709551615" // 2^64-1
 	big20Digit   = "18446744073709551616"
 	// plaintext bytes in the first / every further tink segment (128 KiB
 	// ciphertext segments, 16-byte tag, 40-byte stream header) - only used to
@@ -689,14 +691,14 @@ func exhaustiveSingles(size int) []rspec {
 		for l := 0; l <= size+1; l++ {
 			out = append(out, rspec{Kind: "fl", First: itoa(f), Last: itoa(l)})
 		}
-		for _, l := range []string{big2p31, bigInt64Max1, bigInt64Max, big20Digit} {
+		for _, l := range []string{big2p31, bigInt64Max1, bigInt64Max, big2p63, bigUint64Max, big20Digit} {
 			out = append(out, rspec{Kind: "fl", First: itoa(f), Last: l})
 		}
 		out = append(out, rspec{Kind: "f-", First: itoa(f)})
 	}
-	out = append(out, rspec{Kind: "f-", First: bigInt64Max}, rspec{Kind: "f-", First: big20Digit})
+	out = append(out, rspec{Kind: "f-", First: bigInt64Max}, rspec{Kind: "f-", First: big2p63}, rspec{Kind: "f-", First: bigUint64Max}, rspec{Kind: "f-", First: big20Digit})
 	seen := map[string]bool{}
-	for _, n := range []string{"0", "1", itoa(size - 1), itoa(size), itoa(size + 1), bigInt64Max, big20Digit} {
+	for _, n := range []string{"0", "1", itoa(size - 1), itoa(size), itoa(size + 1), bigInt64Max, big2p63, bigUint64Max, big20Digit} {
 		if strings.HasPrefix(n, "-") || seen[n] {
 			continue
 		}
@@ -766,7 +768,8 @@ func sampledSingles(sh objShape, rng *vkit.Rand, extra int) []rspec {
 	}
 	out = append(out,
 		rspec{Kind: "fl", First: "0", Last: bigInt64Max1}, rspec{Kind: "fl", First: "0", Last: bigInt64Max}, rspec{Kind: "fl", First: itoa(size / 2), Last: big20Digit},
-		rspec{Kind: "fl", First: itoa(size - 1), Last: big2p31}, rspec{Kind: "-s", Suffix: bigInt64Max}, rspec{Kind: "-s", Suffix: "0"})
+		rspec{Kind: "fl", First: itoa(size - 1), Last: big2p31}, rspec{Kind: "-s", Suffix: bigInt64Max}, rspec{Kind: "-s", Suffix: "0"},
+		rspec{Kind: "fl", First: "0", Last: big2p63}, rspec{Kind: "fl", First: itoa(size / 2), Last: bigUint64Max}, rspec{Kind: "-s", Suffix: big2p63}, rspec{Kind: "-s", Suffix: bigUint64Max})
 	for i := 0; i < extra; i++ {
 		f := rng.Intn(size + 1)
 		l := f + rng.Intn(size-f+2)
@@ -818,7 +821,7 @@ func genMulti(rng *vkit.Rand, size int, offs []int) ([]rspec, map[string]bool) {
 		case mode < 94:
 			specs = append(specs, rspec{Kind: "fl", First: itoa(pick()), Last: pickS(rng, big2p31, bigInt64Max1)})
 		case mode < 97:
-			specs = append(specs, rspec{Kind: "fl", First: itoa(pick()), Last: pickS(rng, bigInt64Max, big20Digit)})
+			specs = append(specs, rspec{Kind: "fl", First: itoa(pick()), Last: pickS(rng, bigInt64Max, big2p63, bigUint64Max, big20Digit)})
 			tags["huge-member"] = true
 		default:
 			if len(specs) > 0 {
